@@ -347,7 +347,14 @@ def _as_type(dec, kind):
     if kind in ('dmsd', 'ddmd', 'hpad'):
         src = ga.dec2dms(dec) if kind == 'dmsd' else ga.dec2ddm(dec) if kind == 'ddmd' else ga.HPAngle(ga.dec2hp(dec))
         o = type(src).__new__(type(src))
-        o.__dict__.update(dict(vars(src)))
+        # the stored dictionary carries the documented public field names (what a pickle / json dump written by the released
+        # library holds), not whatever the running version keeps internally
+        if kind == 'dmsd':
+            o.__dict__.update({'degree': src.degree, 'minute': src.minute, 'second': src.second, 'positive': src.positive})
+        elif kind == 'ddmd':
+            o.__dict__.update({'degree': src.degree, 'minute': src.minute, 'positive': src.positive})
+        else:
+            o.__dict__.update({'hp_angle': src.hp_angle})
         return o
     if kind == 'decak':
         return ga.DECAngle(dec_angle=dec)
